@@ -17,11 +17,12 @@ NS150 = 'http://www.collada.org/2008/03/COLLADASchema'
 MASKS = [None, None, ['DaeError'], ['DaeBrokenRefError'], ['DaeIncompleteError', 'DaeMalformedError'],
          ['DaeUnsupportedError']]
 DAMAGE = ['none', 'none', 'none', 'broken_ref', 'missing_p', 'bad_float', 'truncated', 'unknown_semantic',
-          'bad_index', 'no_accessor', 'bad_material_ref']
+          'bad_index', 'no_accessor', 'bad_material_ref', 'degenerate_lookat', 'degenerate_lookat', 'zero_rotate_axis']
 MASK_FOR = {'broken_ref': ['DaeBrokenRefError'], 'missing_p': ['DaeIncompleteError'], 'bad_float': ['DaeMalformedError'],
             'truncated': ['DaeMalformedError'], 'unknown_semantic': ['DaeUnsupportedError'], 'bad_index': ['DaeMalformedError'],
-            'no_accessor': ['DaeIncompleteError'], 'bad_material_ref': ['DaeBrokenRefError']}
-EDITS = ['rename_geometry', 'add_node', 'add_geometry', 'effect_color', 'add_effect', 'ignore', 'remove_geometry',
+            'no_accessor': ['DaeIncompleteError'], 'bad_material_ref': ['DaeBrokenRefError'],
+            'degenerate_lookat': ['DaeMalformedError'], 'zero_rotate_axis': ['DaeMalformedError']}
+EDITS = ['rename_geometry', 'add_node', 'add_geometry', 'add_primitive', 'add_primitive', 'add_primitive', 'add_primitive', 'effect_color', 'add_effect', 'ignore', 'remove_geometry',
          'asset', 'scale_vertices', 'scale_vertices', 'query', 'query', 'query']
 
 
@@ -41,14 +42,15 @@ def make_xml(rng, ns, damage, direct_texture=None, image_name=None):
     if damage == 'bad_index':
         idx = str(nv + 3) + idx[idx.index(' '):] if ' ' in idx else str(nv + 3)
     gid = 'geom%d' % rng.randint(0, 1)
+    sid = '%s-pos%d' % (gid, rng.randint(0, 3))     # same geometry id, different source ids
     eid = 'effect%d' % rng.randint(0, 1)
     mid = 'material%d' % rng.randint(0, 1)
     col = ' '.join(str(rng.choice([0, 0.25, 0.5, 1])) for _ in range(4))
-    accessor = ('<technique_common><accessor source="#%s-pos-array" count="%d" stride="3"><param name="X" type="float"/>'
-                '<param name="Y" type="float"/><param name="Z" type="float"/></accessor></technique_common>' % (gid, nv))
+    accessor = ('<technique_common><accessor source="#%s-array" count="%d" stride="3"><param name="X" type="float"/>'
+                '<param name="Y" type="float"/><param name="Z" type="float"/></accessor></technique_common>' % (sid, nv))
     if damage == 'no_accessor':
         accessor = ''
-    extra_input = '<input semantic="WEIRD" source="#%s-pos" offset="0"/>' % gid if damage == 'unknown_semantic' else ''
+    extra_input = '<input semantic="WEIRD" source="#%s" offset="0"/>' % sid if damage == 'unknown_semantic' else ''
     p = '' if damage == 'missing_p' else '<p>%s</p>' % idx
     use_poly = rng.random() < 0.5 and damage not in ('missing_p',)
     if use_poly:
@@ -60,6 +62,17 @@ def make_xml(rng, ns, damage, direct_texture=None, image_name=None):
     url = '#nope' if damage == 'broken_ref' else '#' + gid
     target = '#nomat' if damage == 'bad_material_ref' else '#' + mid
     tx = rng.randint(-5, 5)
+    # numerically degenerate content: transforms without an orientation, zero-area triangles
+    numeric = ''
+    if damage == 'degenerate_lookat':
+        numeric = rng.choice(['<lookat>1 2 3 1 2 3 0 1 0</lookat>', '<lookat>1 2 3 0 0 0 0 0 0</lookat>',
+                              '<lookat>0 5 0 0 0 0 0 1 0</lookat>'])
+    elif damage == 'zero_rotate_axis':
+        numeric = '<rotate>0 0 0 45</rotate>'
+    elif rng.random() < 0.2:
+        numeric = '<lookat>%d 2 3 0 0 0 0 1 0</lookat>' % rng.randint(1, 4)
+    if rng.random() < 0.35 and damage != 'bad_index':
+        idx = ' '.join(['0 0 1'] + idx.split()[3:])      # a triangle without area (and the mesh has no normals)
     if direct_texture is None:
         direct_texture = rng.random() < 0.25
     image = direct_texture or image_name is not None or rng.random() < 0.4
@@ -74,16 +87,16 @@ def make_xml(rng, ns, damage, direct_texture=None, image_name=None):
    <diffuse>%(diffuse)s</diffuse><shininess><float>%(shin)d</float></shininess></phong></technique></profile_COMMON></effect></library_effects>
  <library_materials><material id="%(mid)s" name="m"><instance_effect url="#%(eid)s"/></material></library_materials>
  <library_geometries><geometry id="%(gid)s" name="g"><mesh>
-   <source id="%(gid)s-pos"><float_array id="%(gid)s-pos-array" count="%(nf)d">%(verts)s</float_array>%(accessor)s</source>
-   <vertices id="%(gid)s-vtx"><input semantic="POSITION" source="#%(gid)s-pos"/></vertices>
+   <source id="%(sid)s"><float_array id="%(sid)s-array" count="%(nf)d">%(verts)s</float_array>%(accessor)s</source>
+   <vertices id="%(gid)s-vtx"><input semantic="POSITION" source="#%(sid)s"/></vertices>
    %(prim)s
  </mesh></geometry></library_geometries>
- <library_visual_scenes><visual_scene id="scene0"><node id="node0" name="n"><translate>%(tx)d 0 1</translate>
+ <library_visual_scenes><visual_scene id="scene0"><node id="node0" name="n"><translate>%(tx)d 0 1</translate>%(numeric)s
    <instance_geometry url="%(url)s"><bind_material><technique_common><instance_material symbol="sym0" target="%(target)s"/></technique_common></bind_material></instance_geometry>
  </node>%(node2)s</visual_scene></library_visual_scenes>
  <scene><instance_visual_scene url="#scene0"/></scene>
 </COLLADA>
-''' % {'ns': ns, 'eid': eid, 'mid': mid, 'gid': gid, 'col': col, 'shin': rng.randint(1, 50), 'nf': 3 * nv, 'verts': verts,
+''' % {'ns': ns, 'sid': sid, 'numeric': numeric, 'eid': eid, 'mid': mid, 'gid': gid, 'col': col, 'shin': rng.randint(1, 50), 'nf': 3 * nv, 'verts': verts,
        'asset': '' if rng.random() < 0.3 else '<asset><created>2020-01-02T03:04:05</created><modified>2020-01-02T03:04:05</modified><up_axis>Z_UP</up_axis></asset>',
        'node2': '<node id="node%d" name="second"><scale>1 %d 1</scale><instance_node url="#node%d"/></node>'
                 % (rng.randint(1, 2), rng.randint(1, 3), rng.choice([0, 0, 1, 2])) if rng.random() < 0.4 else '',
@@ -153,7 +166,7 @@ def make_deep_xml(rng, ns, depth):
 
 def gen_deep_prog(rng, idx):
     ns = rng.choice([NS141, NS141, NS150])
-    depth = rng.randint(250, 390)
+    depth = rng.randint(250, 390) if rng.random() < 0.6 else rng.randint(560, 700)   # well below / well above what 1000 frames allow
     src = {'kind': 'xml', 'xml': make_deep_xml(rng, ns, depth), 'ns': ns, 'damage': 'deep-%d' % depth, 'deep': depth}
     return {'name': 'p%d' % idx, 'source': src, 'ignore': [rng.choice(['GatedDaeError', 'GatedDaeError', 'GatedDaeBrokenRefError'])],
             'steps': [['load'], ['snap']] + ([['save']] if rng.random() < 0.4 else [])}
@@ -393,7 +406,8 @@ def run(ctx):
         deep.append(len(progs))
         progs.append(gen_deep_prog(rng, len(progs)))
     shapes = [[['load'], ['save'], ['edit', 'query', 0], ['save']],
-              [['load'], ['edit', 'add_node', 1], ['save'], ['edit', 'add_geometry', 2], ['edit', 'scale_vertices', 1], ['save']],
+              [['load'], ['edit', 'add_node', 1], ['edit', 'add_primitive', 1], ['save'], ['edit', 'add_geometry', 2],
+               ['edit', 'scale_vertices', 1], ['save']],
               [['load'], ['edit', 'ignore', 1], ['edit', 'query', 0], ['edit', 'add_effect', 3], ['save']]]
     groups = []
     for shape in shapes[:(3 if nprog >= 60 else 1)]:
@@ -447,6 +461,17 @@ def run(ctx):
         k = rng.choice(saves) if saves and rng.random() < 0.6 else rng.choice(ks)
         pick = [a] + rest
         payloads.append(({'mode': 'gated', 'progs': [progs[i] for i in pick], 'gate_step': k}, pick))
+    # two documents parked one inside the other's operation, released in either order: the first is
+    # inside a load or a write when the second (deeply nested) one is parked deep inside its load
+    for n in range(24 if quick else 200):
+        a = rng.choice(usable)
+        ks = io_steps(progs[a])
+        b = rng.choice(deep)
+        if b not in usable:
+            continue
+        pick = [a, b] + [rng.choice(usable) for _ in range(rng.choice([0, 1]))]
+        payloads.append(({'mode': 'gated', 'progs': [progs[i] for i in pick], 'parked': 2, 'gate_step': [rng.choice(ks), 0],
+                          'gate_where': [None, 'ignore.isinstance'], 'release': rng.choice(['fifo', 'fifo', 'lifo'])}, pick))
     ndeep = 16 if quick else 120
     for n in range(ndeep):
         a = rng.choice(deep)
@@ -491,17 +516,13 @@ def run(ctx):
                     and any(x['obs'][0] == 'bytes' for rs in res['results'][1:] for x in rs):
                 dist['gated_foreign_write_in_flight_while_other_writes'] = dist.get('gated_foreign_write_in_flight_while_other_writes', 0) + 1
             kA = payload['gate_step']
-            ra = res['results'][0]
-            sched_obs = [(0, x['digest']) for x in ra[:kA + 1]]
-            for i, rs in enumerate(res['results'][1:], 1):
-                sched_obs += [(i, x['digest']) for x in rs]
-            sched_obs += [(0, x['digest']) for x in ra[kA + 1:]]
+            sched_obs = [(i, x['digest']) for i, rs in enumerate(res['results']) for x in rs]
             terms.append(c_case(len(ps), sched_obs, solo_d, [tuple(g) for g in res['globals']], len(res['shared']) + len(res['crashes'])))
             case_inputs.append((payload, {'global_changes': res.get('global_changes', [])[:3], 'shared': res['shared'][:3],
                                           'parked_in': res.get('where')}))
             dist['steps'] += len(sched_obs)
             if res['parked']:
-                seen.add(core.canon_hash(['gated', [p['name'] for p in ps], kA]))
+                seen.add(core.canon_hash(['gated', [p['name'] for p in ps], kA, payload.get('parked'), payload.get('release')]))
         else:
             dist['threaded_runs'] += 1
             for rnd in res['rounds']:
